@@ -479,10 +479,23 @@ func runC20Scenario(c *Ctx, bin string, sc c20Scenario, idx int) (res c20Result)
 					cmu.Unlock()
 					continue
 				}
+				extra := ""
+				if sc.mix == "idlegap" {
+					// a worker that has answered a request sits idle for longer than --timeout, then
+					// gets a request that takes a few hundred milliseconds (harness-side sleep): what
+					// the earlier request left behind in the worker (a timer, a deadline) must not hit
+					// the later one
+					if k > 0 {
+						time.Sleep(time.Duration(1300*sc.timeout) * time.Millisecond)
+					}
+					if k%2 == 1 {
+						extra = fmt.Sprintf("&sleep=%d", 400)
+					}
+				}
 				body, _ := json.Marshal(map[string]string{"VarInput": "", "SourceCode": c20Program(kind, tok, rng)})
 				atomic.AddInt64(&outstanding, 1)
 				rec := reqRec{tok: tok, kind: kind, start: time.Now().UnixNano()}
-				resp, err := client.Post(url+"?t="+tok, "application/json", bytes.NewReader(body))
+				resp, err := client.Post(url+"?t="+tok+extra, "application/json", bytes.NewReader(body))
 				if err != nil {
 					rec.err = err.Error()
 				} else {
@@ -842,7 +855,7 @@ func readPid(path string) int {
 }
 
 func checkC20(c *Ctx) {
-	c.rule = "the real ZnPMServer master and real worker processes (pmharness: pkg/server + playground handler, hook H1) are started per scenario; scenarios = configurations 1 <= init <= max <= 4 (and pools with more head-room than one spawn batch of ten: 2/16, 2/13, 1/24, 3/14 under a backlog of very short requests) x client concurrency 1..16 x request mix (instant, busy loops, one / two / three requests that outlive --timeout at the same moment, connections that carry no HTTP request so that the accepting worker ends with status 0, requests that stall after part of their headers / part of their body) x scripted kill -9 of one or several live workers at once x execve delay injected with strace (0/5/20/60/150 ms, widens the window between 'spawned' and 'registered') x slow worker start-up x traffic that begins while the master is still starting its initial workers x --init-procs above --max-procs x the master running as process 1 of its own PID namespace x state reports handed to the bookkeeping 120-250 ms late (hook H7: reports overtaken by exits and registrations) x bursts of connections that make their worker report BUSY and end at once x a unix:// listening socket x --init-procs 0 x --max-procs 0 (held by refusing to start) x a --timeout too large for a duration x a request whose head arrives slowly and whose handler is slow (together longer than --timeout). Monitors: /proc children of the master every 2 ms (live workers <= max at every sample; init <= live <= max at a quiescent point = no request outstanding and live set unchanged for 1.5 s); offline checker over the handler log written at the worker boundary (per-worker request intervals never overlap, every token handled once, response == own token, timed-out worker gone); race-detector reports of a -race build are recorded for information only. distinct_nontrivial = distinct (scenario parameters) + distinct 4-grams over {worker_start, req_start, req_end} events seen"
+	c.rule = "the real ZnPMServer master and real worker processes (pmharness: pkg/server + playground handler, hook H1) are started per scenario; scenarios = configurations 1 <= init <= max <= 4 (and pools with more head-room than one spawn batch of ten: 2/16, 2/13, 1/24, 3/14 under a backlog of very short requests) x client concurrency 1..16 x request mix (instant, busy loops, one / two / three requests that outlive --timeout at the same moment, connections that carry no HTTP request so that the accepting worker ends with status 0, requests that stall after part of their headers / part of their body) x scripted kill -9 of one or several live workers at once x execve delay injected with strace (0/5/20/60/150 ms, widens the window between 'spawned' and 'registered') x slow worker start-up x traffic that begins while the master is still starting its initial workers x --init-procs above --max-procs x the master running as process 1 of its own PID namespace x state reports handed to the bookkeeping 120-250 ms late (hook H7: reports overtaken by exits and registrations) x bursts of connections that make their worker report BUSY and end at once x a unix:// listening socket x --init-procs 0 x --max-procs 0 (held by refusing to start) x a --timeout too large for a duration x requests that reach a worker which has been idle for longer than --timeout since its last answer x a request whose head arrives slowly and whose handler is slow (together longer than --timeout). Monitors: /proc children of the master every 2 ms (live workers <= max at every sample; init <= live <= max at a quiescent point = no request outstanding and live set unchanged for 1.5 s); offline checker over the handler log written at the worker boundary (per-worker request intervals never overlap, every token handled once, response == own token, timed-out worker gone); race-detector reports of a -race build are recorded for information only. distinct_nontrivial = distinct (scenario parameters) + distinct 4-grams over {worker_start, req_start, req_end} events seen"
 	c.assumptions = []string{"a child that has been forked but has not exec'd yet is reported separately and not counted as a live worker", "strace execve delay injection only delays, it does not change behaviour", "not reaching a quiescent point within 60 s is inconclusive, not a violation"}
 	if _, err := exec.LookPath("strace"); err != nil {
 		c.Inconclusive("strace not found: " + err.Error())
@@ -900,6 +913,8 @@ func checkC20(c *Ctx) {
 		add(c20Scenario{initP: 3, maxP: 3, timeout: 2, clients: 6, requests: 6, mix: "mixed", kills: 2, reportDelay: 200})
 		add(c20Scenario{initP: 2, maxP: 3, timeout: 1, clients: 4, requests: 5, mix: "stall"})
 		add(c20Scenario{initP: 2, maxP: 3, timeout: 2, clients: 3, requests: 4, mix: "slowhead"})
+		add(c20Scenario{initP: 1, maxP: 1, timeout: 1, clients: 1, requests: 5, mix: "idlegap"})
+		add(c20Scenario{initP: 2, maxP: 2, timeout: 1, clients: 2, requests: 4, mix: "idlegap"})
 		add(c20Scenario{initP: 4, maxP: 2, timeout: 2, clients: 6, requests: 6, mix: "busy"})
 		add(c20Scenario{initP: 20, maxP: 4, timeout: 2, clients: 8, requests: 6, mix: "mixed", kills: 2})
 		add(c20Scenario{initP: 2, maxP: 3, timeout: 2, clients: 4, requests: 6, mix: "mixed", pidns: true})
@@ -941,6 +956,7 @@ func checkC20(c *Ctx) {
 				add(c20Scenario{initP: initP, maxP: maxP, timeout: 2, clients: 6, requests: 4, mix: "hang2"})
 				add(c20Scenario{initP: initP, maxP: maxP, timeout: 2, clients: 5, requests: 6, mix: "garbage"})
 				add(c20Scenario{initP: initP, maxP: maxP, timeout: 1, clients: 4, requests: 5, mix: "stall"})
+				add(c20Scenario{initP: initP, maxP: maxP, timeout: 1, clients: initP, requests: 4, mix: "idlegap"})
 				add(c20Scenario{initP: initP, maxP: maxP, timeout: 2, clients: 6, requests: 6, mix: "busy", execDelay: 60, early: true})
 				add(c20Scenario{initP: initP, maxP: maxP, timeout: 2, clients: 6, requests: 6, mix: "mixed", early: true})
 				add(c20Scenario{initP: initP, maxP: maxP, timeout: 2, clients: 6, requests: 4, mix: "hang3", execDelay: 20})
